@@ -28,6 +28,66 @@ PERSP = {'perspective_rh_gl': (-1, -1, 1, False), 'perspective_lh': (1, 0, 1, Fa
 ORTHO = {'orthographic_rh_gl': (-1, -1, 1), 'orthographic_lh': (1, 0, 1), 'orthographic_rh': (-1, 0, 1)}
 
 
+def quat_views(ctx, cfg, F, H, M, done):
+    """R-VIEW-Q: Quat / DQuat look_to_lh/rh and look_at_lh/rh are the quaternion of the corresponding 3x3 view matrix: the result terms equal those
+    of from_mat3 with the matrix entries replaced by the entries of Mat3 / DMat3 look_*(same arguments) - which R-VIEW decides."""
+    def find(tn, mn):
+        for name, it in api_roots(F):
+            st = (it.get('self_ty') or '').lstrip('&')
+            if not it.get('trait') and st.rsplit('::', 1)[-1] == tn and (it.get('name') or '') == mn:
+                return name, it
+        return None, None
+    for (qt, mt) in (('Quat', 'Mat3'), ('DQuat', 'DMat3')):
+        fname, fit = find(qt, 'from_mat3')
+        if fit is None:
+            ctx.unverifiable('R-VIEW-Q', cfg, qt + '::from_mat3', 'not found')
+            continue
+        rf = H.run(fit['key'])
+        fb = F.body(fit['key'])
+        fl = value_lanes(F, rf.ret, fb['locals'][0]) if not rf.abort and rf.ret is not None else None
+        fent, _mi = M.arg_entries(rf, 0, fb['locals'][1]) if fl else (None, None)
+        for mn in ('look_to_lh', 'look_to_rh', 'look_at_lh', 'look_at_rh'):
+            qname, qit = find(qt, mn)
+            mname_, mit = find(mt, mn)
+            if qit is None:
+                continue
+            if mit is None or fl is None or fent is None:
+                ctx.unverifiable('R-VIEW-Q', cfg, qname, 'matrix counterpart / from_mat3 not analysable')
+                continue
+            rq, rm = H.run(qit['key']), H.run(mit['key'])
+            qb, mb = F.body(qit['key']), F.body(mit['key'])
+            if rq.abort or rm.abort:
+                ctx.undecided('R-VIEW-Q', cfg, qname, rq.abort or rm.abort)
+                continue
+            ql = value_lanes(F, rq.ret, qb['locals'][0])
+            E = M.entries(rm.ret, mb['locals'][0])
+            bad = None
+            if ql is None or E is None:
+                bad = 'result lanes / matrix entries not found'
+            else:
+                mp = {fent[k]: E[k] for k in fent}
+                exp = [tm.subst(l, mp) for l in fl]
+                if any(x is not y for x, y in zip(ql, exp)):
+                    # not syntactically identical: compare as real functions branch by branch
+                    from C12 import cases_with_assignment
+                    cs = cases_with_assignment(list(ql) + list(exp), 8)
+                    if cs is None:
+                        bad = 'too many selections to compare with from_mat3(%s::%s(..))' % (mt, mn)
+                    else:
+                        for asg, ts in cs:
+                            alg = nf.Algebra()
+                            alg.budget = 400000
+                            S = Spec(alg)
+                            try:
+                                if not all(S.eq(alg.nf(a), alg.nf(b)) for a, b in zip(ts[:4], ts[4:])):
+                                    bad = 'is not the quaternion of %s::%s of the same arguments' % (mt, mn)
+                                    break
+                            except ValueError as e:
+                                bad = 'not analysable: %s' % e
+                                break
+            done('R-VIEW-Q', qname, bad, qit)
+
+
 def run(ctx):
     configs = ctx.need(CONFIGS_QUICK if ctx.tier == 'quick' else CONFIGS_THOROUGH)
     ctx.trusted = TRUSTED_COMMON + ['reference mathematics rules/spec.py; documented depth ranges transcribed from the rustdoc of each constructor']
@@ -204,6 +264,8 @@ def run(ctx):
                         bad = 'component %d is not %s' % (i, '(M(p,1)).xyz / (M(p,1)).w' if mname.startswith('project') else 'M(p,%s).xyz' % ('0' if 'vector' in mname else '1'))
                         break
                 done('R-XFORM', name, bad, it)
+        quat_views(ctx, cfg, F, H, M, done)
+        ctx.floor('quaternion view instances (%s)' % cfg, counts.get('R-VIEW-Q', 0), 8)
         ctx.floor('view matrix instances (%s)' % cfg, counts.get('R-VIEW', 0), 24)
         ctx.floor('projection instances (%s)' % cfg, counts.get('R-PROJ', 0), 20)
         ctx.floor('point/vector transform instances (%s)' % cfg, counts.get('R-XFORM', 0), 9)
